@@ -91,3 +91,25 @@ pub fn short_err(e: &str) -> String {
     let l = e.lines().next().unwrap_or("");
     crate::util::truncate_str(l, 300)
 }
+
+/// is this error message one of the documented resource-limit stops
+pub fn is_limit_error(msg: &str) -> bool {
+    let m = msg.to_ascii_lowercase();
+    m.contains("too many items")
+        || m.contains("too complex")
+        || m.contains("fuel")
+        || m.contains("too many")
+        || m.contains("too large")
+        || m.contains("limit")
+        || m.contains("too big")
+        || m.contains("exhausted")
+}
+
+/// factory with tightened Earley limits: pathological (exponentially ambiguous) grammars hit the
+/// documented limit stop quickly instead of burning the default 50k items per mask
+pub fn factory_tight(vocab: &Vocab) -> ParserFactory {
+    let mut l = ParserLimits::default();
+    l.step_max_items = 6000;
+    l.max_items_in_row = 500;
+    factory_ext(vocab, &[], InferenceCapabilities::default(), Some(l)).expect("factory")
+}
